@@ -6,7 +6,7 @@
    {"a":"time","ct":T,"exp":E,"st":S,"v":0|1}        apply_time_step(T, E)      (E=-1: none)
    {"a":"fail","ct":T,"st":S,"v":0|1}                record_failure(T)
    {"a":"attempt","path":P,"ct":T,"exp":E,"wrong":0|1,"res":R,"st":S,"v":0|1}
-        one attempt through path P in {"direct","auth","unix","reauth"}; E = the account's admin
+        one attempt through path P in {"direct","auth","unix","ldap","reauth"}; E = the account's admin
         soft-lock expiry; R in {"ok","fail","refused","none"}
    S = {k,n,r,u,le} projection of the lock AFTER the step; v = is_valid() after the step.      *)
 EXTENDS KAuthSoftLock, Json, IOUtils, TLC
@@ -20,10 +20,13 @@ VARIABLES l, s, p, wc, free, proto
 vars == <<l, s, p, wc, free, proto>>
 
 St(o) == [k |-> o.k, n |-> o.n, r |-> o.r, u |-> o.u, le |-> o.le]
-PolOf(r) == IF r.pol = "password" THEN [w |-> Day, th |-> PwTh, dl |-> PwDl] ELSE [w |-> r.w, th |-> TotpTh, dl |-> TotpDl]
+\* server histories name the credential kind ("ckind"): the judging policy is DERIVED from it
+\* (Credential::softlock_policy), whichever path created the server's lock object
+PolName(r) == IF "ckind" \in DOMAIN r THEN (IF r.ckind = "pwtotp" THEN "totp" ELSE "password") ELSE r.pol
+PolOf(r) == IF PolName(r) = "password" THEN [w |-> Day, th |-> PwTh, dl |-> PwDl] ELSE [w |-> r.w, th |-> TotpTh, dl |-> TotpDl]
 \* the reauth path never passes the admin expiry to the lock
 L2Exp(r) == IF r.path = "reauth" THEN None ELSE r.exp
-L2Res(r, x) == IF r.path = "unix" /\ x # "ok" THEN "none" ELSE x
+L2Res(r, x) == IF r.path \in {"unix", "ldap"} /\ x # "ok" THEN "none" ELSE x
 
 IsFail(r) == r.a = "attempt" /\ CountsAsFailure(s, r.res, St(r.st))
 NewFree(r) == free /\ ~(r.a \in {"time", "attempt"} /\ r.exp # None) /\ r.a # "fail"
